@@ -10,7 +10,7 @@ Equality of remote and local *values* is NOT decided.
 import ast
 import struct
 
-from ..model import AnalysisError, src, callee_name, dotted, walk_local, calls_in, FUNC
+from ..model import AnalysisError, src, callee_name, dotted, walk_local, calls_in, FUNC, pos
 from ..flow import path_conditions,  atoms_at, split_conj
 from ..callgraph import CallGraph
 from .. import effects
@@ -93,7 +93,7 @@ def _frame(ctx, repo, m):
     # decoder
     ctx.instance("C13-R1", recv.fq)
     reads = [c for c in calls_in(recv.node) if isinstance(c.func, ast.Attribute) and c.func.attr.startswith("read")]
-    reads.sort(key=lambda c: (c.lineno, c.col_offset))
+    reads.sort(key=lambda c: pos(c))
     ctx.ob("C13-R1", recv.fq, "every read of the receive routine is readexactly (a bare read(n) may return short)", bool(reads) and all(c.func.attr == "readexactly" for c in reads),
            node=recv.node, construct="exact reads only", msg="the receive routine uses a read that may return fewer bytes than asked: a frame split across network reads is misparsed")
     ctx.ob("C13-R1", recv.fq, "every read is awaited and there are exactly three (id, length, body)", len(reads) == 3 and all(is_awaited(c) for c in reads), node=recv.node, construct="three awaited reads")
@@ -142,7 +142,7 @@ def _frame(ctx, repo, m):
     ctx.ob("C13-R1", send.fq, "a frame is emitted by exactly one write of the encoder's result", ok, node=send.node, construct="single write per frame",
            msg="a frame is written in several pieces: concurrent senders share one writer, so another frame can interleave between header and body")
     aw = [n for n in walk_local(send.node) if isinstance(n, ast.Await)]
-    ok = all((a.lineno, a.col_offset) > (writes[0].lineno, writes[0].col_offset) for a in aw) if writes else False
+    ok = all(pos(a) > pos(writes[0]) for a in aw) if writes else False
     ctx.ob("C13-R1", send.fq, "no suspension point before the frame is completely handed to the writer", ok, node=send.node, construct="no await before the write")
 
 
